@@ -5,7 +5,7 @@
 import BioCantor.Model.Cache
 namespace BioCantor.Proofs.Cache
 open BioCantor BioCantor.Model.Cache
-open BioCantor.Spec.Cache (Ev recent expectEv expectEvs expectEvsObj)
+open BioCantor.Spec.Cache (Ev recent evOn expectEv expectEvs expectEvsObj)
 
 set_option linter.unusedSectionVars false
 variable {κ ν : Type} [DecidableEq κ]
@@ -181,7 +181,7 @@ theorem step_keys {f : κ → ν} {cap : Nat} {s : Store κ ν} {h : List κ} (k
   have hlen : s.length = min cap (recent h).length := by
     have := congrArg List.length inv
     simpa [keys, List.length_take] using this
-  unfold step expectEv
+  unfold step expectEv evOn
   by_cases hc : cap = 0
   · subst hc
     simp only [List.take_zero, if_true] at inv ⊢
@@ -225,13 +225,17 @@ theorem step_keys {f : κ → ν} {cap : Nat} {s : Store κ ν} {h : List κ} (k
           simpa [List.take_take, Nat.min_eq_left (Nat.le_succ c)] using this
         rw [h1, h3]
 
+theorem expectEvs_cons (cap : Nat) (h : List κ) (k : κ) (ks : List κ) :
+    expectEvs cap h (k :: ks) = expectEv cap h k :: expectEvs cap (k :: h) ks := rfl
+
 theorem run_events {f : κ → ν} {cap : Nat} : ∀ (ops : List κ) {s : Store κ ν} {h : List κ},
     keys s = (recent h).take cap → events (run f cap s ops) = expectEvs cap h ops
   | [], _, _, _ => rfl
   | k :: ks, s, h, inv => by
     have hs := step_keys (f := f) k inv
     have ih := run_events (f := f) (cap := cap) ks hs.1
-    simp only [events, run, List.map_cons, expectEvs] at ih ⊢
+    rw [expectEvs_cons]
+    simp only [events, run, List.map_cons] at ih ⊢
     rw [ih, hs.2]
 
 /-! ### per-object tables -/
